@@ -118,12 +118,11 @@ def specThunkCount (b : Bytes) (off len sz : Nat) : Out Nat :=
   | none => .err .bounds
 
 /-- the directory: located through data directory 1; RVA 0 = no imports (`Null`, through `View.at`).
-An image whose data-directory array is too short to have entry 1 gets `Bounds` here, as in the code;
-the property's wording would ask for `Null` — the driver prints `hyp=0` for such images and
-`Thm/C09.lean` records the deviation (`C09_missing_entry_partial`, `C09_missing_entry_not_null`). -/
+An image whose data-directory array is too short to have entry 1 has no imports either: `Null`
+(`Thm/C09.lean`: `C09_missing_entry_null`). -/
 def specTryFrom (v : View) : Out Ref :=
   match v.dataDir dirImport with
-  | none => .err .bounds
+  | none => .err .null
   | some (rva, _) =>
     match v.at (.rva rva) 0 4 with
     | .ok w => (match specDescCount v.b w.off w.len with
@@ -158,10 +157,11 @@ def specImport (v : View) (va : Nat) : Out Import :=
         | .err e => .err e | .panic s => .panic s | .ub s => .ub s | .diverge => .diverge)
     | .err e => .err e | .panic s => .panic s | .ub s => .ub s | .diverge => .diverge
 
-/-- the image-wide IAT: data directory 12, exactly ⌊Size / thunk size⌋ entries -/
+/-- the image-wide IAT: data directory 12, exactly ⌊Size / thunk size⌋ entries; no entry 12 in the
+data-directory array = no IAT (`Null`) -/
 def specIat (v : View) : Out Ref :=
   match v.dataDir dirIAT with
-  | none => .err .bounds
+  | none => .err .null
   | some (rva, size) =>
     let n := size / vaSize v.fmt
     match v.at (.rva rva) (n * vaSize v.fmt) (vaSize v.fmt) with
